@@ -7,7 +7,7 @@ M32 = 1 << 32
 def gen_spin(rng, tier):
     cases = []
     max_ops = 6 if tier == "quick" else 10
-    for _ in range(n_cases(tier, 360, 5000)):
+    for _ in range(n_cases(tier, 360, 20000)):
         nt = rng.choice([2, 2, 3, 3, 4, 5])
         # mostly start just below the wrap-around so that both counters cross 2^32 within
         # a few acquisitions
